@@ -184,8 +184,16 @@ def run(case: dict, ctx) -> dict:
             sfx.write_to(d / fn)
             lines.append(f'RW {cap_j} {kind} "{fn}"' + (" 0" if kind in ("FLAT", "VMFS") and rng.random() < 0.6 else ""))
             parts.append(Model(cap_j * SECTOR, [lay]))
-        (d / "disk.vmdk").write_text(w.descriptor_text(lines, create_type="twoGbMaxExtentFlat"))
+        stale_hint = rng.random() < 0.3
+        (d / "disk.vmdk").write_text(w.descriptor_text(lines, create_type="twoGbMaxExtentFlat", parent_hint="former-parent.vmdk" if stale_hint else None))
         model = ConcatModel(parts)
+        if stale_hint:
+            # parentCID says "no parent"; the hint is a leftover and a file of that name happens to lie next to the disk: absent
+            # grains are zeros, not that file's bytes
+            psf, _, _ = w.build_flat(rng, nsectors=model.size // SECTOR, tag=rng.getrandbits(48))
+            psf.write_to(d / "former-parent-flat.vmdk")
+            (d / "former-parent.vmdk").write_text(w.descriptor_text([f'RW {model.size // SECTOR} FLAT "former-parent-flat.vmdk" 0'], create_type="monolithicFlat"))
+            res["cnt"]["base_disks_with_a_leftover_parent_hint"] = 1
         o = call(VMDK, d / "disk.vmdk")
         if not o.ok:
             res["viol"].append({"what": f"open failed on a well-formed descriptor: {o.brief()}", "mech": MECH, "detail": {"tb": o.tb, "lines": lines}})
@@ -238,7 +246,8 @@ def run(case: dict, ctx) -> dict:
         ngte = rng.choice([512, 512, 512, 64, 128, 1024])
         cap = _cap(rng, grain, ngte, 6000 if grain < 64 else (20000 if grain < 2048 else 6 * grain))
         if rng.random() < 0.4:
-            desc = w.descriptor_text([f'RW {cap} SPARSE "x.vmdk"'], crlf=rng.random() < 0.3)
+            # (a disk without a parent - parentCID ffffffff - may still carry the file name hint of a parent it once had)
+            desc = w.descriptor_text([f'RW {cap} SPARSE "x.vmdk"'], crlf=rng.random() < 0.3, parent_hint="former-parent.vmdk" if rng.random() < 0.25 else None)
         zero_gte = rng.random() < 0.6
         far = 0
         if rng.random() < 0.2:
@@ -267,7 +276,8 @@ def run(case: dict, ctx) -> dict:
             rng, capacity=cap, grain=grain, ngte=ngte, states=st, placement=placement, tag=tag, version=rng.choice([1, 1, 2, 3]),
             zero_gte=zero_gte, redundant=rng.random() < 0.4, descriptor=desc, align_grains=rng.random() < 0.6,
             tables_after_data=True if tight_gd else rng.random() < 0.3, far_sector=far, gd_in_footer=(not far and not tight_gd and rng.random() < 0.2),
-            gd_last=tight_gd, redundant_override=False if tight_gd else None,
+            # the directory may also come behind the grain tables (a first grain table right after the header: directory entry 1)
+            gd_last=tight_gd or rng.random() < 0.2, redundant_override=False if tight_gd else None,
         )
         res["cnt"]["directory_is_last_structure_cases"] = int(tight_gd)
     elif k == "stream":
